@@ -76,6 +76,8 @@ class FragDomain(Domain):
     async_enabled = False
     subscript_may_raise = False
     unpack_may_raise = False
+    global_keys = ("sent",)
+    max_inline_depth = 4
 
     def __init__(self, prog, public_fn, exchange_names):
         super().__init__(prog, public_fn)
@@ -84,8 +86,6 @@ class FragDomain(Domain):
         self.events = []  # wire variants
         self.order_violations = []  # sanitizer after send
         self.sanitizer_sites = set()
-        self.depth = 0
-        self.frames = []
 
     # ---- truth bookkeeping ------------------------------------------------------
     def truth(self, v, state=None):
@@ -309,11 +309,15 @@ class FragDomain(Domain):
             return [("ok", NONE, state.set("sent", 1))]
         if name == "self._connect":
             return [("ok", NONE, state.set("sent", 1))]
-        if name.startswith("self.") and name.count(".") == 1 and name[5:] in self.exchange_names and self.depth < 3:
-            if self.frames and self.frames[-1]["fn"].param("noreply") is not None:
-                # the value the enclosing request/response function holds in `noreply` when it hands over to a helper
-                self.frames[-1]["bound"] = dict(self.frames[-1]["bound"], noreply=state.get("noreply", TOP))
-            return self._inline(node, name[5:], args, kwargs, state)
+        if name.startswith("self.") and name.count(".") == 1:
+            m = self.prog.cls("Client").methods.get(name[5:])
+            if m is not None and name[5:].startswith("_") and name[5:] not in ("_connect", "_check_integer", "_check_cas", "_raise_errors", "_extract_value"):
+                if self.frames and self.frames[-1]["fn"].param("noreply") is not None:
+                    # the value the enclosing function holds in `noreply` when it hands over to a helper
+                    self.frames[-1]["bound"] = dict(self.frames[-1]["bound"], noreply=state.get("noreply", TOP))
+                res = self.inline(node, m, args, kwargs, state)
+                if res is not None:
+                    return [r for r in res if r[0] == "ok"]
         return ok(TOP)
 
     def _sanitizer(self, node, state, what):
@@ -348,29 +352,6 @@ class FragDomain(Domain):
             )
         )
 
-    def _inline(self, node, mname, args, kwargs, state):
-        callee = self.prog.method("Client", mname)
-        bound = bind_args(callee, args, kwargs, self.prog)
-        env = {k: v for k, v in state.d.items() if isinstance(k, tuple) or (isinstance(k, str) and k.startswith("self.")) or k == "sent"}
-        env.update(bound)
-        self.depth += 1
-        self.frames.append({"fn": callee, "site": node, "bound": bound})
-        try:
-            outs = Interp(self, callee.node, self.prog).run(Env(env))
-        finally:
-            self.frames.pop()
-            self.depth -= 1
-        res = []
-        seen = set()
-        for s, v, t in outs.of("ret"):
-            carry = {k: val for k, val in s.d.items() if isinstance(k, tuple) or k == "sent"}
-            s2 = state.update(carry)
-            rv = v if _hashable(v) else TOP
-            if (rv, s2) not in seen:
-                seen.add((rv, s2))
-                res.append(("ok", rv, s2))
-        return res
-
 
 def bind_args(callee, args, kwargs, prog):
     bound = {}
@@ -401,17 +382,11 @@ def exchange_names(prog):
 
 
 def wire_methods(prog):
-    """Public methods of Client (aliases excluded) that reach an exchange function directly."""
-    ex = exchange_names(prog)
-    out = []
-    for name, f in sorted(prog.cls("Client").methods.items()):
-        if name.startswith("_") or name in ex:
-            continue
-        for n in walk_no_nested(f.node):
-            if isinstance(n, ast.Call) and isinstance(n.func, ast.Attribute) and is_self_attr(n.func) and n.func.attr in ex:
-                out.append(f)
-                break
-    return out
+    """Public methods of Client (aliases excluded) in whose extent a command is sent (through private helpers)."""
+    from . import exchange
+
+    send, read = exchange._facts(prog)
+    return [f for name, f in sorted(prog.cls("Client").methods.items()) if not name.startswith("_") and send[name]]
 
 
 _CACHE = {}
